@@ -120,11 +120,12 @@ def inbAlpha (dim a N : Nat) (x : Nat → Rat) (F : Rat) (k : Nat) : Rat :=
 def inbBeta (dim a N : Nat) (x : Nat → Rat) (F : Rat) (k : Nat) : Rat :=
   if k + 1 = N then inbBetaLast dim a F else if k = 0 then inbBetaFirst dim a F else inbBetaMid dim a (x k) F
 
-/-- sampling factor of the inbreeding path at grid point k.  `F = 0` on this axis (while another axis has F ≠ 0) is the
-    F → 0 limit, binomial sampling: the pinned code divides by F there (see notes/C05.md); the harness compares this branch
-    only when the implementation returns finite numbers. -/
+/-- sampling factor of the inbreeding path at grid point k.  For `F = 0` on this axis (while another axis has F ≠ 0) the
+    factor is the one the source returns for `F == 0` where it has such a branch (`inbZeroFHandled`); where it has none the
+    pinned code divides by F (inf/nan, see notes/C05.md) and the model uses the F → 0 limit, binomial sampling — the harness
+    compares this branch only when the implementation returns finite numbers. -/
 def inbWeight (dim a n P N : Nat) (F : Rat) (het : Bool) (x : Nat → Rat) (k i : Nat) : Rat :=
-  let base := if F = 0 then directFactor dim a n i (x k)
+  let base := if F = 0 then (if inbZeroFHandled dim a then inbZeroFactor dim a n i (x k) else directFactor dim a n i (x k))
               else betaBinomConv i (n / P) (inbAlpha dim a N x F k) (inbBeta dim a N x F k) P
   if het then base * inbHetFactor dim a (x k) else base
 
